@@ -58,6 +58,10 @@ func (*c08) Impl(c Case) []string {
 				return c08DupDelete(atoi(t[2]), atoi(t[3]))
 			case "recommit":
 				return c08Recommit(atoi(t[2]), atoi(t[3]))
+			case "newid":
+				return c08NewID(atoi(t[2]), atoi(t[3]))
+			case "dualcommit":
+				return c08DualCommit(atoi(t[2]))
 			case "selfcopy":
 				return c08SelfCopy(atoi(t[2]))
 			case "mixed":
@@ -418,6 +422,109 @@ func c08DupDelete(rounds, deleters int) string {
 	return "ok"
 }
 
+// c08NewID: several goroutines open the same caller-chosen upload ID, which does not exist yet, at the same moment
+// (a PATCH on an unknown ID creates the session), and each appends one byte. Every successful Write is part of THE
+// upload: afterwards its size is the number of successful writes (seed C08-12: each goroutine got a session of its own).
+func c08NewID(rounds, writers int) string {
+	ctx := context.Background()
+	r := ocimem.New()
+	for round := 0; round < rounds; round++ {
+		id := "new-" + strconv.Itoa(round)
+		var ok atomic.Int64
+		var wg sync.WaitGroup
+		start := make(chan struct{})
+		for i := 0; i < writers; i++ {
+			wg.Add(1)
+			go func(i int) {
+				defer wg.Done()
+				<-start
+				w, err := r.PushBlobChunkedResume(ctx, "a", id, -1, 0)
+				if err != nil {
+					return
+				}
+				if _, err := w.Write([]byte{byte('a' + i)}); err == nil {
+					ok.Add(1)
+				}
+				w.Close()
+			}(i)
+		}
+		close(start)
+		wg.Wait()
+		w, err := r.PushBlobChunkedResume(ctx, "a", id, -1, 0)
+		if err != nil {
+			return "not-linearizable: the upload cannot be resumed: " + errClass(err)
+		}
+		if n := ok.Load(); w.Size() != n {
+			return fmt.Sprintf("not-linearizable: %d one-byte writes to upload %q succeeded, the upload holds %d bytes", n, id, w.Size())
+		}
+		w.Close()
+	}
+	return "ok"
+}
+
+// c08DualCommit: two handles on one upload session. A commits the content "X…" under its digest; B appends "Y" and
+// commits the longer content under ITS digest, in every relative timing the scheduler produces. Whatever the order,
+// a Commit that reports success reports the digest it was asked to commit, and a blob with that digest and matching
+// content is stored afterwards (nothing deletes it).
+func c08DualCommit(rounds int) string {
+	ctx := context.Background()
+	for round := 0; round < rounds; round++ {
+		r := ocimem.New()
+		x := bytes.Repeat([]byte("X"), 1+round%4096)
+		xy := append(append([]byte{}, x...), 'Y')
+		d1, d2 := ociregistry.Digest(sha256Digest(x)), ociregistry.Digest(sha256Digest(xy))
+		wa, err := r.PushBlobChunked(ctx, "a", 0)
+		if err != nil {
+			return "setup: " + err.Error()
+		}
+		if _, err := wa.Write(x); err != nil {
+			return "setup: " + err.Error()
+		}
+		wb, err := r.PushBlobChunkedResume(ctx, "a", wa.ID(), -1, 0)
+		if err != nil {
+			return "setup: " + err.Error()
+		}
+		var wg sync.WaitGroup
+		var descA, descB ociregistry.Descriptor
+		var errA, errB error
+		start := make(chan struct{})
+		wg.Add(2)
+		go func() { defer wg.Done(); <-start; descA, errA = wa.Commit(d1) }()
+		go func() {
+			defer wg.Done()
+			<-start
+			if _, errB = wb.Write([]byte("Y")); errB == nil {
+				descB, errB = wb.Commit(d2)
+			}
+		}()
+		close(start)
+		wg.Wait()
+		for _, c := range []struct {
+			who  string
+			asked ociregistry.Digest
+			desc ociregistry.Descriptor
+			err  error
+		}{{"A", d1, descA, errA}, {"B", d2, descB, errB}} {
+			if c.err != nil {
+				continue
+			}
+			if c.desc.Digest != c.asked {
+				return fmt.Sprintf("not-linearizable: Commit(%s) by %s succeeded but reports digest %s", c.asked[:15], c.who, c.desc.Digest)
+			}
+			rd, err := r.GetBlob(ctx, "a", c.asked)
+			if err != nil {
+				return fmt.Sprintf("not-linearizable: Commit(%s) by %s succeeded but the blob is not stored: %s", c.asked[:15], c.who, errClass(err))
+			}
+			data, _ := io.ReadAll(rd)
+			rd.Close()
+			if sha256Digest(data) != string(c.asked) {
+				return fmt.Sprintf("stored-content-differs: blob %s holds %d bytes hashing to %s", c.asked[:15], len(data), sha256Digest(data)[:15])
+			}
+		}
+	}
+	return "ok"
+}
+
 // c08Mixed: random operations from many goroutines over a small key space, directly or
 // through ociserver (in-process handler calls). Only panics and data races are failures here.
 func c08Mixed(goroutines, ops int, seed uint64, server bool) string {
@@ -540,6 +647,8 @@ func (*c08) Gen(rng *RNG, tier string) []Case {
 		cases = append(cases, Case{Tag: "session", Lines: []string{fmt.Sprintf("conc session %d %d", sr, w)}})
 	}
 	cases = append(cases, Case{Tag: "dupdelete", Lines: []string{fmt.Sprintf("conc dupdelete %d 4", sr*3)}})
+	cases = append(cases, Case{Tag: "newid", Lines: []string{fmt.Sprintf("conc newid %d 4", sr*10)}})
+	cases = append(cases, Case{Tag: "dualcommit", Lines: []string{fmt.Sprintf("conc dualcommit %d", sr*10)}})
 	cases = append(cases, Case{Tag: "selfcopy", Lines: []string{"conc selfcopy 50"}})
 	for _, w := range []int{1, 2, 4} {
 		cases = append(cases, Case{Tag: "recommit", Lines: []string{fmt.Sprintf("conc recommit %d %d", sr, w)}})
